@@ -1,3 +1,4 @@
+import threading
 import warnings
 from collections import defaultdict
 from contextlib import contextmanager
@@ -91,7 +92,7 @@ def find_top_boxed_args(args):
     return top_boxes, top_trace, top_node_type
 
 
-class TraceStack:
+class TraceStack(threading.local):
     def __init__(self):
         self.top = -1
 
